@@ -10,7 +10,9 @@ def demo_path(demo):
     m = re.search(r'place at\s+(\S+)', first)
     return m.group(1) if m else None
 def confirm(ID, v):
-    src=f'/tmp/seed_out/{ID}/{v}'; wt=f'/tmp/seed_{ID}'
+    r2=os.environ.get('ROUND')=='2'
+    src=f'/tmp/seed_out2/{ID}/{v}' if r2 else f'/tmp/seed_out/{ID}/{v}'; wt=f'/tmp/seed2_{ID}' if r2 else f'/tmp/seed_{ID}'
+    name={'a':'c','b':'d'}[v] if r2 else v
     out={}
     assert sh(f'git -C {wt} status --porcelain').stdout.strip()=='' , 'worktree dirty'
     rel=demo_path(f'{src}/demo.rs'); assert rel, 'no place-at comment'
@@ -30,11 +32,11 @@ def confirm(ID, v):
         sh(f'git -C {wt} checkout -- .'); 
         try: os.remove(f'{wt}/{rel}')
         except FileNotFoundError: pass
-    dst=f'/verif/seeded/{ID}_{v}'; os.makedirs(dst, exist_ok=True)
+    dst=f'/verif/seeded/{ID}_{name}'; os.makedirs(dst, exist_ok=True)
     for f in ('patch.diff','demo.rs','README.md'):
         if os.path.exists(f'{src}/{f}'): shutil.copy(f'{src}/{f}', f'{dst}/{f}' if f!='README.md' else f'{dst}/AGENT_README.md')
     meta=json.load(open(f'{dst}/meta.json')) if os.path.exists(f'{dst}/meta.json') else {}
-    meta.update({'id':f'{ID}_{v}','property':ID,'confirmed':out,'confirm_commands':[f'git apply patch.diff (scratch worktree {wt})','cargo test --workspace --no-fail-fast --offline',f'cargo test -p {crate} --test {testname} --offline (with and without the change)']})
+    meta.update({'id':f'{ID}_{name}','property':ID,'confirmed':out,'confirm_commands':[f'git apply patch.diff (scratch worktree {wt})','cargo test --workspace --no-fail-fast --offline',f'cargo test -p {crate} --test {testname} --offline (with and without the change)']})
     json.dump(meta, open(f'{dst}/meta.json','w'), indent=1)
     print(ID, v, out)
 def run(ID, v, props):
